@@ -51,7 +51,7 @@ OInit == [cfg |-> [ka |-> 0], opened |-> FALSE, now |-> 0,
           accFirst |-> Empty,
           wireErrs |-> 0, loopErrs |-> 0, excLogs |-> 0, goaway |-> 0,
           cwin |-> 65535, initwin |-> 65535, swin |-> Empty, illegal |-> FALSE, unusual |-> {},
-          held |-> 0, maxHeld |-> 0, spins |-> 0, fed |-> 0,
+          held |-> 0, maxHeld |-> 0, spins |-> 0, fed |-> 0, stalled |-> Empty,
           lastByteAt |-> 0, nstarted |-> 0, startOrder |-> <<>>,
           endOrder |-> <<>>, n |-> 0]
 
@@ -148,6 +148,7 @@ OStep(o0, ev) ==
                                    !.bad = ev.bad, !.total = ev.total, !.kind = ev.kind,
                                    !.stream = ev.stream, !.c = ev]),
                       !.order = Append(@, ev.app)]
+      [] ev.e = "c_send" /\ o.closedAt >= 0 -> o     \* written into a closed connection: it never reached the server
       [] ev.e = "c_send" ->
             LET r2 == ApplyProgress(o.reqs, ev.reqs)
                 r3 == [a \in DOMAIN r2 |->
@@ -164,6 +165,7 @@ OStep(o0, ev) ==
       [] ev.e = "winddown" -> [o EXCEPT !.winddown = TRUE]
       [] ev.e = "final" -> [o EXCEPT !.final = TRUE]
       [] ev.e = "tick" -> [o EXCEPT !.now = Max(@, ev.to)]
+      [] ev.e = "c_stall" -> [o EXCEPT !.stalled = Put(@, ev.app, [left |-> ev.left, sw |-> ev.sw, cw |-> ev.cw])]
       [] ev.e = "c_rst" -> [o EXCEPT !.reqs = Put(@, ev.app, [Req(o, ev.app) EXCEPT !.rst = TRUE])]
       [] ev.e = "c_frame" ->
             CASE ev.kind = "wupd" ->
@@ -219,7 +221,8 @@ Reusable(o, a) ==
     /\ r.idx < o.cfg.kamax
 
 (* between the arrival of a complete request head and the end of its response *)
-BusyReq(o, a) == LET r == Req(o, a) IN r.known /\ r.head /\ ~r.bad /\ Wire(o, a).ends = 0
+\* (a stream the client has reset is over, whatever its application still does)
+BusyReq(o, a) == LET r == Req(o, a) IN r.known /\ r.head /\ ~r.bad /\ ~r.rst /\ Wire(o, a).ends = 0
 Busy(o) == \E a \in DOMAIN o.reqs : BusyReq(o, a)
 
 (* HTTP/1: a pipelined request whose head has arrived but which has not been served *)
@@ -230,6 +233,25 @@ ParkedPipeline(o) == \E a \in DOMAIN o.reqs : Req(o, a).begun /\ Req(o, a).idx >
 UnreadLeft(o) == \E a \in DOMAIN o.apps :
                     /\ App(o, a).started > 0 /\ Req(o, a).known /\ Req(o, a).head
                     /\ (App(o, a).recvd < Req(o, a).body \/ (Req(o, a).done /\ App(o, a).ended = 0))
+
+(* HTTP/2 upload flow control.  The client (which respects the server's windows) could not send the
+   rest of a body: `stalled` says how much is left and which window is shut.  The server owes credit
+   for everything it has consumed - handed to an application that took it, or discarded because the
+   stream is over for it.  When the application of the stalled stream has received every byte sent and
+   is waiting for more, a shut stream window is withheld credit; a shut connection window is withheld
+   credit when that is true of every stream. *)
+Consumed(o, a) ==
+    LET s == App(o, a) IN
+    \/ s.started = 0 \/ s.done # ""
+    \/ s.recvd = Req(o, a).body
+UploadStarved(o, a) ==
+    /\ a \in DOMAIN o.stalled /\ o.stalled[a].left > 0
+    /\ Connected(o) /\ ~o.illegal /\ o.goaway = 0
+    /\ ~Req(o, a).rst /\ Wire(o, a).rst = 0
+    /\ App(o, a).started > 0 /\ App(o, a).done = "" /\ App(o, a).parked = "recv" /\ App(o, a).recvd = Req(o, a).body
+    /\ \/ o.stalled[a].sw = 0
+       \/ (o.stalled[a].cw = 0 /\ \A b \in DOMAIN o.reqs : Consumed(o, b))
+StarvedBy(o, a) == IF o.stalled[a].sw = 0 THEN "stream-window" ELSE "connection-window"
 
 F(clause, ctx) == <<clause, ctx>>
 =============================================================================
